@@ -7,6 +7,7 @@ import (
 	"fmt"
 	"math/rand"
 	"net"
+	"os"
 	"sort"
 	"time"
 
@@ -51,10 +52,18 @@ func (raceEngine) Decode(raw json.RawMessage) (any, error) {
 
 const raceStaticMacs = 4
 
+type relayKey struct {
+	xid   uint32
+	relay byte
+}
+
 type raceReq struct {
 	rxIf    int  // receive interface index given to the server
 	pinned  bool // the reply must be pinned to rxIf (link-local peer / broadcast)
 	unanswered bool // a datagram of a kind the server never answers
+	l2link     string // DHCPv4 answered at link level: the interface the request arrived on (ve0|vf0)
+	relay      byte   // DHCPv4: last byte of the relay address 10.9.9.x the request came through
+	opt82      []byte // relay agent information this relay added
 	v6      bool
 	xid     uint32
 	mac     []byte // chaddr (v4) / DUID-LL address (v6)
@@ -78,6 +87,10 @@ func (raceEngine) Run(ctx *fw.Ctx, cs any) {
 			{"router", []string{"10.77.0.1"}}, {"dns", []string{"10.77.0.2"}}, {"lease_time", []string{"120s"}}},
 		V6: []PlugConf{{"server_id", []string{"LL", "00:de:ad:be:ef:00"}}, {"sleep", []string{"200us"}}, {"file", []string{"{DIR}/l6.txt", "autorefresh"}},
 			{"prefix", []string{"2001:db8:aa00::/60", "64"}}, {"dns", []string{"2001:db8::53"}}, {"searchdomains", []string{"example.org"}}},
+	}
+	netns := os.Getenv("VERIF_NETNS") == "1"
+	if netns {
+		job.Sniff = []string{"ve1", "vf1"}
 	}
 	serverDUID := pkt.DUIDLL([]byte{0x00, 0xde, 0xad, 0xbe, 0xef, 0x00})
 	var reqs []*raceReq
@@ -156,13 +169,31 @@ func (raceEngine) Run(ctx *fw.Ctx, cs any) {
 				}
 			} else {
 				p := pkt.Request4(r.xid, r.mac, byte(1+2*rng.Intn(2)), pkt.O4(55, 1, 3, 6, 51), pkt.O4(12, []byte(fmt.Sprintf("h-%x", r.mac))...), pkt.O4(61, append([]byte{1}, r.mac...)...))
-				if rng.Intn(3) == 0 { // not relayed, broadcast flag: broadcast reply pinned to the arrival interface
+				if netns && !r.static && rng.Intn(4) == 0 {
+					// neither relayed nor broadcast nor renewing: answered with a raw Ethernet frame on the arrival link
+					r.l2link = []string{"ve0", "vf0"}[rng.Intn(2)]
+					cr = ChainReq{Hex: hex.EncodeToString(p.Bytes()), RxIfName: r.l2link, Peer: "0.0.0.0", Port: 68, Async: true}
+				} else if rng.Intn(3) == 0 { // not relayed, broadcast flag: broadcast reply pinned to the arrival interface
 					p.Flags = 0x8000
 					r.rxIf, r.pinned = fakeIf-1-rng.Intn(2), true
 					cr = ChainReq{Hex: hex.EncodeToString(p.Bytes()), RxIf: r.rxIf, Peer: "0.0.0.0", Port: 68, Async: true}
 				} else {
-					p.Gi = pkt.IP4("10.9.9.9")
-					cr = ChainReq{Hex: hex.EncodeToString(p.Bytes()), RxIf: fakeIf, Peer: "10.9.9.9", Port: 67, Async: true}
+					// relayed; sometimes the same client message (same xid) reaches the server through two
+					// redundant relays at once: each relay must get the reply to ITS forwarded copy
+					r.relay, r.opt82 = 9, []byte{1, 4, 'r', '9', '/', byte('0' + j%10)}
+					mk := func(relay byte, o82 []byte) ChainReq {
+						q := *p
+						q.Opts = append(append([]pkt.Opt4{}, p.Opts...), pkt.O4(82, o82...))
+						q.Gi = [4]byte{10, 9, 9, relay}
+						return ChainReq{Hex: hex.EncodeToString(q.Bytes()), RxIf: fakeIf, Peer: fmt.Sprintf("10.9.9.%d", relay), Port: 67, Async: true}
+					}
+					cr = mk(r.relay, r.opt82)
+					if rng.Intn(5) == 0 {
+						twin := *r
+						twin.relay, twin.opt82 = 10, []byte{1, 5, 'r', '1', '0', '/', byte('0' + j%10)}
+						reqs = append(reqs, &twin)
+						job.Reqs = append(job.Reqs, mk(twin.relay, twin.opt82))
+					}
 				}
 			}
 			if rewrite && j == 0 {
@@ -237,6 +268,13 @@ func (raceEngine) Run(ctx *fw.Ctx, cs any) {
 		}
 		ctx.Eval("C16", int64(br.N))
 		answered := map[key]int{}
+		answeredRelay := map[relayKey]int{}
+		byRelay := map[relayKey]*raceReq{}
+		for _, rq := range burstReqs {
+			if !rq.v6 && rq.relay != 0 {
+				byRelay[relayKey{rq.xid, rq.relay}] = rq
+			}
+		}
 		for _, cp := range br.Caps {
 			b, _ := hex.DecodeString(cp.Hex)
 			ctx.Count("race.replies", 1)
@@ -327,6 +365,26 @@ func (raceEngine) Run(ctx *fw.Ctx, cs any) {
 				ctx.Viol("C16", "reply-without-request", "%s: a DHCPv4 reply with xid %#x matches no request of the burst", desc, m.Xid)
 				continue
 			}
+			if rq.relay != 0 {
+				// which relay was this datagram sent to? its giaddr and relay agent information must be that relay's
+				var toRelay byte
+				fmt.Sscanf(cp.Peer, "10.9.9.%d:67", &toRelay)
+				want := byRelay[relayKey{m.Xid, toRelay}]
+				o82, _ := m.Get(82)
+				if want == nil || m.Gi != [4]byte{10, 9, 9, toRelay} || !bytes.Equal(o82, want.opt82) {
+					for _, pr := range []string{"C16", "C11"} {
+						ctx.Viol(pr, "reply-carries-other-relays-fields", "%s: the reply sent to relay %s for xid %#x carries giaddr %v and relay agent information %q; that relay forwarded the request with its own giaddr and %q", desc, cp.Peer, m.Xid, net.IP(m.Gi[:]), o82, func() []byte {
+							if want != nil {
+								return want.opt82
+							}
+							return nil
+						}())
+					}
+					continue
+				}
+				answeredRelay[relayKey{m.Xid, toRelay}]++
+				ctx.Count("race.relayed_replies_checked", 1)
+			}
 			answered[key{false, m.Xid}]++
 			if rq.pinned {
 				ctx.Count("race.pinned_replies", 1)
@@ -354,6 +412,42 @@ func (raceEngine) Run(ctx *fw.Ctx, cs any) {
 				ctx.Viol("C16", "lease:"+sig, "%s: %s", desc, msg)
 			}
 		}
+		// link-level replies of the burst
+		l2seen := map[uint32]int{}
+		for _, f := range br.Frames {
+			fb, _ := hex.DecodeString(f.Hex)
+			fr, err := pkt.ParseFrame(fb)
+			if err != nil || !fr.IsIPv4UDP || fr.SrcPort != 67 {
+				continue
+			}
+			m, err := pkt.Parse4(fr.Payload)
+			if err != nil {
+				continue
+			}
+			rq := byXid[key{false, m.Xid}]
+			if rq == nil || rq.l2link == "" {
+				ctx.Viol("C16", "reply-without-request", "%s: a link-level DHCPv4 reply with xid %#x matches no link-level request of the burst", desc, m.Xid)
+				continue
+			}
+			l2seen[m.Xid]++
+			ctx.Count("race.l2_replies", 1)
+			if !bytes.Equal(m.Chaddr[:6], rq.mac) || !bytes.Equal(fr.DstMAC[:], rq.mac) {
+				ctx.Viol("C16", "reply-echoes-other-datagram", "%s: link-level reply %#x is addressed to %x / carries chaddr %x, its request came from %x", desc, m.Xid, fr.DstMAC, m.Chaddr[:6], rq.mac)
+			}
+			if want := map[string]string{"ve0": "ve1", "vf0": "vf1"}[rq.l2link]; f.If != want {
+				for _, pr := range []string{"C16", "C15"} {
+					ctx.Viol(pr, "reply-pinned-to-other-datagrams-interface", "%s: request %#x arrived on %s, its link-level reply left on the link whose peer is %s", desc, m.Xid, rq.l2link, f.If)
+				}
+			}
+			if sig, msg := lease.Judge(clientKey(rq.mac), true, net.IP(m.Yi[:])); sig != "" && sig != "served-beyond-capacity" {
+				ctx.Viol("C16", "lease:"+sig, "%s: %s", desc, msg)
+			}
+		}
+		for x, n := range l2seen {
+			if n > 1 {
+				ctx.Viol("C16", "two-replies", "%s: %d link-level replies to request %#x", desc, n, x)
+			}
+		}
 		for _, rq := range burstReqs {
 			if rq.unanswered {
 				ctx.Count("race.unanswerable_datagrams", 1)
@@ -362,6 +456,14 @@ func (raceEngine) Run(ctx *fw.Ctx, cs any) {
 						ctx.Viol(pr, "unanswerable-datagram-answered", "%s: a datagram the server never answers (xid %#x, v6=%v) was answered during a concurrent burst", desc, rq.xid, rq.v6)
 					}
 				}
+			}
+		}
+		for k, n := range answeredRelay {
+			if n > 1 {
+				ctx.Viol("C16", "two-replies", "%s: %d replies to the copy of request %#x forwarded by relay 10.9.9.%d", desc, n, k.xid, k.relay)
+			}
+			if n == 1 && answered[key{false, k.xid}] > 1 {
+				answered[key{false, k.xid}]-- // one reply per forwarded copy is right
 			}
 		}
 		for k, n := range answered {
